@@ -478,8 +478,9 @@ func truncate(limit int, s string) string {
 
 		_, size := utf8.DecodeRuneInString(s[i:])
 		if size == 1 {
-			// Invalid encoding.
-			b.Grow(len(s) - 1)
+			// Invalid encoding. Grow by at least one byte (len(s) > limit >= 0
+			// here): a zero capacity means no invalid input was found.
+			b.Grow(len(s))
 			_, _ = b.WriteString(s[:i])
 			s = s[i:]
 			break
